@@ -1159,6 +1159,43 @@ func callBuiltin(caller *frame, fn *ssa.Builtin, args []value) value {
 
 	case "ssa:deferstack":
 		return &caller.defers
+
+	// package unsafe: byte slices are []value, so a *byte is a *value into
+	// such a backing array and host-level unsafe.Slice recovers the window.
+	// Strings are immutable values here: StringData points into a fresh copy,
+	// String copies (the model internal/convert already uses).
+	case "StringData":
+		b := strBytes(args[0])
+		if len(b) == 0 {
+			return (*value)(nil)
+		}
+		return &b[0]
+	case "SliceData":
+		b := args[0].([]value)
+		if cap(b) == 0 {
+			return (*value)(nil)
+		}
+		return &b[:1][0]
+	case "Slice":
+		p := args[0].(*value)
+		n := int(i.concInt(args[1]))
+		if p == nil {
+			if n != 0 {
+				panic(targetPanic{runtimeError("unsafe.Slice: ptr is nil and len is not zero")})
+			}
+			return []value(nil)
+		}
+		if n < 0 {
+			panic(targetPanic{runtimeError("unsafe.Slice: len out of range")})
+		}
+		return unsafe.Slice(p, n)
+	case "String":
+		p := args[0].(*value)
+		n := int(i.concInt(args[1]))
+		if p == nil || n == 0 {
+			return ""
+		}
+		return mkStr(append([]value(nil), unsafe.Slice(p, n)...))
 	}
 
 	panic("unknown built-in: " + fn.Name())
